@@ -88,3 +88,29 @@ def add (c : UStreamingDynamic) (d : BDoc) : UStreamingDynamic × Bool :=
 end UStreamingDynamic
 
 end Ftdc
+
+/-! ### a writer that may refuse a write
+
+`FlushCollector` resolves, writes, and resets only after the write succeeded.  `wok = false`: the writer refuses this
+write (nothing is written, an error is returned). -/
+namespace Ftdc
+namespace UStreaming
+def flushW (c : UStreaming) (wok : Bool) : UStreaming × Bool :=
+  if c.info.2 = 0 then (c, true) else
+  match c.resolve with
+  | none => (c, false)
+  | some docs => if wok then ({ c with written := c.written ++ [docs] }.reset, true) else (c, false)
+
+/-- `Add` when a full batch has to be written first and the writer may refuse -/
+def addW (c : UStreaming) (d : BDoc) (wok : Bool) : UStreaming × Bool :=
+  let (c1, ok) := if c.count ≥ c.maxSamples then c.flushW wok else (c, true)
+  if !ok then (c1, false) else
+  let (u, r) := c1.inner.add d
+  if r = .ok then ({ c1 with inner := u, count := c1.count + 1 }, true) else ({ c1 with inner := u }, false)
+end UStreaming
+
+/-- an operation of a history with write faults -/
+inductive UFOp where
+  | add (d : BDoc) (wok : Bool)
+  | flush (wok : Bool)
+end Ftdc
